@@ -4,6 +4,7 @@ document.  Proof = composition of C10's round trip (Props/C09.lean); corresponde
 vs ide-level results converted by the reference position mapper (itself checked against the Lean
 LineIndex model)."""
 import json
+import urllib.parse
 
 from .. import core
 from ..core import hexs
@@ -16,7 +17,7 @@ TRUSTED = [
     "lsp-types/async-lsp serialisation, url <-> path conversion",
 ]
 RULE = ("two- and three-file workspaces whose files have different line structure (blank-line/comment prefixes, LF/CRLF/CR, non-ASCII "
-        "comments and strings); requests: definition and references at every identifier, documentSymbol, foldingRange, documentLink, "
+        "comments and strings; spans that themselves contain non-ASCII text: links to non-ASCII file names, type errors on non-ASCII strings, stray non-ASCII characters); requests: definition and references at every identifier, documentSymbol, foldingRange, documentLink, "
         "inlayHint for every file, plus published diagnostics; a workspace is non-trivial if a definition or reference crosses files")
 FINISH = dict(level="proof", trusted_base=TRUSTED, rule=RULE)
 
@@ -59,7 +60,19 @@ def workspaces(ck):
                 + "def top : Top<3> { int g = leafv; }%s" % e1
                 + "foreach i = [1, 2] in {%s  def x#i : Undefined<i>;%s}%s" % (e1, e1, e1)
                 + 'include "missing.td"%s' % e1)
-        out.append({"main.td": main, "inc.td": inc, "sub.td": sub})
+        files = {"inc.td": inc, "sub.td": sub}
+        # spans that themselves contain non-ASCII text: a link to a file with a non-ASCII name, type errors on non-ASCII strings
+        # (also as a template argument), a stray non-ASCII character (lexer + parser diagnostics)
+        wide = rng.choice(["gr\u00f6\u00dfe", "\U0001F600x", "a\U000F0001b", "\u20acuro\U0010FFFF", "\u00e9"])
+        if rng.random() < 0.8:
+            main += 'include "%s.td"%s' % (wide, e1)
+            files[wide + ".td"] = "class Wide%d;%s" % (len(wide), e3)
+        if rng.random() < 0.8:
+            main += 'class Err%s { int x = "%s"; int y = "plain"; }%sdef de : Base<"%s">;%s' % (rng.choice(["", "<int k>"]), wide, e1, wide, e1)
+        if rng.random() < 0.5:
+            main += "def s1 : Leaf; %s def s2 : Leaf;%s" % (rng.choice(["\U0001F600", "\u00e9", "\U000F0001\u00df"]), e1)
+        files["main.td"] = main
+        out.append(files)
     return out
 
 
@@ -159,11 +172,11 @@ def run(ck):
         if data["timeout"] or data["unanswered"]:
             ck.fail(sig, "requests unanswered: %s" % data["unanswered"][:5], case, None, "answers")
             continue
-        resp = {m["id"]: m.get("result") for m in data["msgs"] if "id" in m and "method" not in m}
+        resp = {m["id"]: unquote_uris(m.get("result")) for m in data["msgs"] if "id" in m and "method" not in m}
         pubs = {}
         for m in data["msgs"]:
             if m.get("method") == "textDocument/publishDiagnostics":
-                pubs[m["params"]["uri"].rsplit("/", 1)[1]] = m["params"]["diagnostics"]
+                pubs[urllib.parse.unquote(m["params"]["uri"]).rsplit("/", 1)[1]] = m["params"]["diagnostics"]
         uri = lambda p: "file://%s/%s" % (d, p[3:])
         bad = None
         for rid, kind, p, exp in reqs:
@@ -202,6 +215,15 @@ def run(ck):
                     case, json.dumps(bad[2])[:600], json.dumps(bad[3])[:600])
     ck.count("workspaces", len(wss), nontriv, sample={"files": wss[0]}, requests=sum(len(m[2]) for m in metas))
     return ck.finish(extra_cov={"traces_validated_against_impl": len(wss)}, **FINISH)
+
+
+def unquote_uris(x):
+    """URIs are compared after percent-decoding (file names may be non-ASCII)"""
+    if isinstance(x, list):
+        return [unquote_uris(y) for y in x]
+    if isinstance(x, dict):
+        return {k: (urllib.parse.unquote(v) if k in ("uri", "target") and isinstance(v, str) else unquote_uris(v)) for k, v in x.items()}
+    return x
 
 
 def sym_json(text, s):
